@@ -1147,7 +1147,7 @@ def model2_stream(chk, pid, items):
         args.append((impl['spec'], st, {}, None)); keep.append((c, impl))
     if not args: return
     try:
-        Ms = sim2lib.run_model2(args, name=pid.lower() + 'm2', shard=4, timeout=(120 if chk.tier == 'quick' else 300), tolerate=True)
+        Ms = sim2lib.run_model2(args, name=pid.lower() + 'm2', shard=4, timeout=(60 if chk.tier == 'quick' else 300), tolerate=True)
     except Exception as e:
         chk.broken.append(('model-evaluation-stage2', str(e)[-600:])); return
     nskip = nslow = 0
